@@ -58,6 +58,19 @@ PROPS = {
                 gen=lambda seed, tier: gen.gen_def_cases(seed, 20000 if tier == 'thorough' else 2500), flavours=['c'],
                 rule='random (mostly defective) terminal/rule lists through the callbacks, every defect class alone and in pairs, strict in {0,1}; return code vs model, symbol flags and rules vs model',
                 assumptions=COMMON_ASSUME),
+    'C13': dict(level='proof', theorem_modules=['C03'], min_theorems=4, tags=['C13'], crash_counts=True,
+                gen=lambda seed, tier: gen.gen_history_cases(seed, 4000 if tier == 'thorough' else 500) +
+                                       gen.gen_parse_cases(seed + 7, 6000 if tier == 'thorough' else 500, 'C13'), flavours=['c'],
+                rule='every caller-side parse_alloc / parse_free / termcb event of every parse is logged with block ids: frees must hit live blocks of the same parse exactly once, everything reachable from the root must lie in live blocks (walk before and after yaep_free_grammar under ASan with real frees), yaep_free_tree must release all blocks of the parse and call termcb once per TERM node; definitions are handed over as heap copies that are scribbled and freed right after the defining call',
+                assumptions=COMMON_ASSUME + ['that the C pointer graph is the exported node table is observed, not proved; partial: memory effects are runtime truth (ASan)']),
+    'C14': dict(level='proof', theorem_modules=['C14'], min_theorems=8, tags=['C14', 'C15', 'C01', 'C02', 'C05', 'C06', 'C07', 'C10', 'C13', 'C09'], crash_counts=True,
+                gen=lambda seed, tier: gen.gen_history_cases(seed, 12000 if tier == 'thorough' else 1200), flavours=['c'],
+                rule='random histories of <= 40 API calls over up to 3 live grammar objects (create, set, define good/defective, redefine, parse with sentences / non-sentences / invalid codes / NULL allocators, error queries, free_tree, free in any order); every return value, callback and tree is compared with the history-free model (a function of the object definition and settings only); library allocator accounting must be zero after all objects are freed',
+                assumptions=COMMON_ASSUME + ['the model is history-free by construction (Model/Api.lean); any deviation of any call is therefore a history dependence']),
+    'C15': dict(level='proof', theorem_modules=['C15'], min_theorems=10, tags=['C15'], crash_counts=True,
+                gen=lambda seed, tier: gen.gen_history_cases(seed + 3, 12000 if tier == 'thorough' else 1200), flavours=['c'],
+                rule='the same histories: yaep_error_code / message after every call, return codes of yaep_parse for invalid token codes (below, between and above the declared codes), undefined grammars, NULL allocator with non-NULL free; previous values returned by all setters incl. out-of-range lookahead levels',
+                assumptions=COMMON_ASSUME),
     'C19': dict(level='proof', theorem_modules=['C19'], min_theorems=12, tags=['C19'], crash_counts=False, kind='containers',
                 gen=lambda seed, tier: gen_containers.gen_cases(seed, 12000 if tier == 'thorough' else 1500), flavours=['c', 'cxx'],
                 rule='random op sequences (<= 400 ops) on hash table (small moduli force collisions, sizes force several expansions, remove/re-insert reuse deleted slots, empty), object stack (sizes around segment boundaries, objects larger than a segment), VLO (growth boundaries); C and C++ builds; every query result vs the Lean model, table size/element count as deep tie',
